@@ -8,7 +8,8 @@ RULE = ("(a) h_init, one process per case: histories of 3-20 init/work/fini cycl
         "requested via the global attribute, myth_init_ex or MYTH_NUM_WORKERS, optionally with 1-8 extra OS threads racing the "
         "first myth_init; checks myth_get_num_workers()==requested, worker indices in [0,n), user code on <= n distinct OS "
         "threads, /proc/self/task == base+n-1 after init and == base after fini, fini called while the main thread runs on a "
-        "worker != 0. (b) h_env, one process per generated environment: MYTH_NUM_WORKERS / MYTH_WORKER_NUM / MYTH_DEF_STKSIZE / "
+        "worker != 0; in a third of the histories every cycle binds the workers (MYTH_BIND_WORKERS=1) with a different MYTH_CPU_LIST "
+        "(numbers, a-b, a-b:c) and every worker's affinity mask must be exactly the CPU docs/bind.txt assigns to its rank. (b) h_env, one process per generated environment: MYTH_NUM_WORKERS / MYTH_WORKER_NUM / MYTH_DEF_STKSIZE / "
         "MYTH_DEF_GUARDSIZE / MYTH_BIND_WORKERS / MYTH_CHILD_FIRST / MYTH_CPU_LIST set to empty, whitespace, signs, letters, "
         "trailing junk, control characters incl. newline, zero, negatives; oracle: exit 0, 'OK', effective worker count and "
         "stack size equal the documented fallback (or the numeric prefix atoi accepts when it is positive and usable). "
@@ -132,9 +133,12 @@ def run(b, tier, seed, t0):
         if v == "asan":
             env.update(core.ASAN_ENV)
         env = {k: vv for k, vv in env.items() if vv is not None}
-        cases.append(Case([ex_init[v], "seed=%d" % (seed * 100129 + i), "cycles=%d" % cycles, "maxw=%d" % maxw, "racers=%d" % racers, "via=%s" % via],
+        bind = 1 if (not racers and i % 3 == 0) else 0
+        if bind:
+            maxw = min(maxw, 16)
+        cases.append(Case([ex_init[v], "seed=%d" % (seed * 100129 + i), "cycles=%d" % cycles, "maxw=%d" % maxw, "racers=%d" % racers, "via=%s" % via, "bind=%d" % bind],
                           env=env, timeout=300, weight=min(maxw, 8), tag="init:%s:c%d:w%d:r%d:%s:%d" % (v, cycles, maxw, racers, via, i),
-                          meta={"kind": "init", "desc": "c%dw%dr%d%s" % (cycles, maxw, racers, via), "variant": v, "nontrivial": cycles >= 2 or racers > 0}))
+                          meta={"kind": "init", "desc": "c%dw%dr%d%s%s" % (cycles, maxw, racers, via, "b" if bind else ""), "variant": v, "nontrivial": cycles >= 2 or racers > 0}))
     for i in range(n_env):
         v = r.choice(["h0", "asan"])
         env, exp_nw, exp_stk, desc, mal = gen_env(r)
